@@ -428,6 +428,43 @@ class Mut:
             return ["ref", [nm]]
         return self._field_into(files, sty, 9, "B11 type defined later")
 
+    def extend_path(self, files):
+        """a valid reference followed by a component that exists nowhere: nothing resolves it,
+        whatever kind of definition the valid prefix denotes"""
+        rng = self.rng
+        refs = [(k, it, idx) for k, it, idx in _slots(files) if it[idx][1][0] == "ref"]
+        if not refs:
+            return None
+        key, it, idx = rng.choice(refs)
+        it[idx][1][1] = list(it[idx][1][1]) + [self.z("Zx")]
+        return dict(code=9, file=key, node=it, rule="B11 path continued past a definition that has no such member")
+
+    def importer_not_visible(self, files):
+        """a definition of the IMPORTING file, declared before the import statement, is not
+        visible inside the imported file"""
+        rng = self.rng
+        cands = [(k, its, x) for k, its in files.items() for x in its if x[0] == "import" and x[3] in files]
+        if not cands:
+            return None
+        key, items, imp = rng.choice(cands)
+        child = files[imp[3]]
+        n_importers = sum(1 for kk, its in files.items() for x in its if x[0] == "import" and x[3] == imp[3])
+        nm = self.z("ZUp")
+        items.insert(rng.randint(0, items.index(imp)), ["enum", None, nm, ["uint", 2], [["efield", None, "ZA", 0]]])
+        msgs = [x for x in child if x[0] == "msg"]
+        new = ["field", None, ["single", ["ref", [nm]]], self.z("zf"), None]
+        if msgs:
+            m = rng.choice(msgs)
+            new[4] = _free_number(m[4], rng)
+            if new[4] is None:
+                return None
+            m[4].insert(rng.randint(0, len(m[4])), new)
+        else:
+            new[4] = 1
+            child.append(["msg", None, self.z("ZM"), False, [new]])
+        return dict(code=9 if n_importers == 1 else None, file=imp[3], node=new,
+                    rule="B11 definition of the importing file used inside the imported file")
+
     def inner_not_visible(self, files):
         """a definition nested in a sibling message is not visible without its path"""
         def sty(key, owner):
@@ -569,6 +606,7 @@ class Mut:
     ALL = ["width", "array_cap", "field_number", "dup_number", "enum_overflow", "enum_dup_value", "enum_base",
            "dup_name", "dup_import_name", "max_bytes", "max_bytes_ok", "msg_too_big", "alias_named", "in_message",
            "in_enum", "import_in_scope", "option", "undefined_type", "later_type", "inner_not_visible",
+           "extend_path", "importer_not_visible",
            "const_as_type", "type_as_const", "import_cycle", "import_twice", "import_missing", "no_proto",
            "traditional", "grammar_misplaced"]
 
